@@ -255,6 +255,16 @@ def step (st : St) (toks : List String) : St × String :=
     match bool? bt, bool? ipv8, ofHex? pfx, ofHex? data with
     | some bt, some ipv8, some pfx, some data => (st, showBool (exitAllows bt ipv8 pfx data))
     | _, _, _, _ => bad
+  | ["tepany", anon, att, ready] =>
+    match bool? anon, bool? att, bool? ready with
+    | some anon, some att, some ready =>
+      let s := ({} : TEp).sendAny anon att ready (1, 1)
+      (st, s!"direct={s.direct.length} out={s.out.length} queued={s.queue.length}")
+    | _, _, _ => bad
+  | ["createinuse", c, r, x] =>
+    match bool? c, bool? r, bool? x with
+    | some c, some r, some x => (st, showBool (genCreateInUse c r x))
+    | _, _, _ => bad
   | ["dump", a] =>
     match a.toNat? with
     | some a => match findNode st.net a with
